@@ -413,7 +413,7 @@ def main():
     specs = GR.fixed_specs() + list(GR.RAW)
     n = {"C01": 40, "C02": 40, "C03": 30, "C10": 40, "C11": 40}.get(a.prop, 30)
     if a.tier != "quick":
-        n *= 12
+        n *= 4 if a.prop == "C03" else 12      # C03 runs every grammar at seven limits: its traces are the largest
     specs += GR.family(R, n, FEATS_ALL)
     if a.prop == "C03":
         specs += GR.C03_EXTRA
